@@ -135,10 +135,23 @@ def load_prop(pid):
 # --------------------------------------------------------------------------------------------------
 # classification of exceptions: library code vs harness code
 # --------------------------------------------------------------------------------------------------
+def has_timeout(e):
+    seen = 0
+    while e is not None and seen < 8:
+        if isinstance(e, CaseTimeout):
+            return True
+        e = e.__cause__ if e.__cause__ is not None else e.__context__
+        seen += 1
+    return False
+
+
 def exc_origin(e):
     """("library", "<file>:<func>") when the innermost traceback frame that belongs to either the harness or the
     library belongs to the library (desolver); ("harness", ...) when it belongs to the harness (pbt) - i.e. who
     raised, ignoring numpy/scipy frames below."""
+    if has_timeout(e):
+        # the watchdog fired inside library code that wraps exceptions: the case is inconclusive, never a verdict
+        return "harness", "watchdog"
     tb = traceback.extract_tb(e.__traceback__)
     who, where = "harness", (tb[-1].name if tb else "?")
     for fr in tb:
@@ -252,7 +265,9 @@ def evaluate(ctx, case):
     ctx.evaluations += 1
     try:
         viols, info = run_check(ctx.prop, case, ctx.timeout)
-    except CaseTimeout:
+    except Exception as e:
+        if not has_timeout(e):
+            raise
         if len(ctx.inconclusive) < 20:
             ctx.inconclusive.append(dict(case=case, why="watchdog {} s".format(ctx.timeout)))
         else:
